@@ -1903,7 +1903,15 @@ def corr_type_text(ck: Ck) -> None:
         KVDef('key', v, 'Key', val_list=[] if v.has_list else None).export(buf)
         parens = [x for t, x in fgd_tokens(buf.getvalue()) if t is T.PAREN_ARGS]
         w_rows.append('(%s, %s)' % (coq_chars(v.value), coq_chars(parens[0] if len(parens) == 1 else '<no single PAREN_ARGS token>')))
+    io_rows = []
+    for v in ValueTypes:
+        buf = io.StringIO()
+        IODef('Fire', v).export(buf, 'input')
+        parens = [x for t, x in fgd_tokens(buf.getvalue()) if t is T.PAREN_ARGS]
+        io_rows.append('(%s, %s)' % (coq_chars(v.value), coq_chars(parens[0] if len(parens) == 1 else '<no single PAREN_ARGS token>')))
     exprs = [
+        # IODef.export for every member: the literal spellings and VALUE_TO_IO_DECAY read from the source
+        'bad_idx (fun c : list N * list N => str_eqb (io_text_of io_decay_tab io_special_text (fst c)) (snd c)) 0 ' + coq_list(io_rows),
         'bad_idx (fun c : list N * (bool * ty) => res_eqb (KV (fst c)) (snd c)) 0 ' + coq_list(rows_kv),
         'bad_idx (fun c : list N * (bool * ty) => res_eqb (IO (fst c)) (snd c)) 0 ' + coq_list(rows_io),
         'bad_idx (fun c : list N * option (bool * ty) => ores_eqb (strict (KV (fst c))) (snd c)) 0 ' + coq_list(rows_kv_s),
@@ -1917,16 +1925,16 @@ def corr_type_text(ck: Ck) -> None:
         ck.tie_broken.append('correspondence type text: model evaluation failed')
         return
     bad = [parse_coq_N_list(v) for v in vals]
-    names = ['KVDef._parse', 'IODef._parse', 'KVDef._parse strict', 'IODef._parse strict', 'export']
+    names = ['IODef.export members', 'KVDef._parse', 'IODef._parse', 'KVDef._parse strict', 'IODef._parse strict', 'export']
     nbad = sum(len(b) for b in bad)
     ck.obligation('correspondence:text_type_text', nbad == 0,
                   f'{len(rows_kv)} texts between the parentheses x (KVDef._parse, IODef._parse) x (ignore_unknown_valuetype on / off) and '
-                  f'{len(w_rows)} written type texts == Fmt/FgdTypeText.v with the programs and VALUE_TYPE_LOOKUP read from the source: '
+                  f'{len(w_rows) + len(io_rows)} written type texts (custom names, canonical names, every member on an I/O line) == Fmt/FgdTypeText.v with the programs and VALUE_TYPE_LOOKUP read from the source: '
                   + ', '.join(f'{n}: {len(b)} disagreements' for n, b in zip(names, bad)))
     if nbad:
         ck.tie_broken.append('correspondence type text (Fmt/FgdTypeText.v vs fgd.py)')
         k = next(i for i, b in enumerate(bad) if b)
-        rows = [rows_kv, rows_io, rows_kv_s, rows_io_s, w_rows][k]
+        rows = [io_rows, rows_kv, rows_io, rows_kv_s, rows_io_s, w_rows][k]
         ck.extra['type_text_disagreement'] = {'site': names[k], 'row': rows[bad[k][0]][:400]}
 
 
@@ -3083,6 +3091,7 @@ INSTANCE_OBLIGATIONS = {
     'text_kv_unknown_type_kept_verbatim': 'kv_unknown_type_kept_verbatim',
     'text_io_unknown_type_kept_verbatim': 'io_unknown_type_kept_verbatim',
     'text_type_table_canonical_names_read_back': 'type_table_ok',
+    'text_io_decay_written_texts_read_back_as_the_decayed_type': 'io_decay_table_ok',
     'text_type_fold_then_fallback_is_refuted': 'fold_then_fallback_breaks',
     'lazy_bases_resolved_through_get_ent': 'lazy_via_get_ent',
     'lazy_map_lookup_is_refuted': 'map_lookup_breaks',
@@ -3111,6 +3120,7 @@ class StageCk:
         self.axioms: dict[str, list[str]] = {}
         self._log: list[tuple] = []
         self.error: Optional[BaseException] = None
+        self.heartbeat = 0      # seconds without a counted case after which a search stage is declared hung (0 = off)
 
     def __getattr__(self, attr: str) -> Any:            # seed, tier, thorough, scratch, ...
         return getattr(self._ck, attr)
@@ -3123,6 +3133,9 @@ class StageCk:
 
     def count(self, key: str, n: int = 1) -> None:
         self._log.append(('count', key, n))
+        if self.heartbeat:
+            import signal
+            signal.alarm(self.heartbeat)      # a search stage counts every case: progress
 
     def hist(self, group: str, key: Any, n: int = 1) -> None:
         self._log.append(('hist', group, key, n))
@@ -3224,6 +3237,15 @@ class StageTimeout(RuntimeError):
     pass
 
 
+class StageHang(BaseException):
+    """Raised by SIGALRM inside a search stage that has not counted a case for HEARTBEAT seconds (not an Exception: the oracles'
+    `except Exception` clauses must not swallow it)."""
+
+
+# One case of a search stage takes milliseconds to (whole bundled database, heavy load) about 30 s.
+HEARTBEAT = int(os.environ.get('C16_HEARTBEAT', '150'))    # the variable exists for testing the mechanism itself
+
+
 def start_workers(ck: Ck, groups: list[list[tuple[str, Callable[..., Any], tuple]]], searches: bool, escalate: bool = False) -> Callable[[], bool]:
     """Fork one worker process per group; a worker runs its stages one after the other, each with its own StageCk (own random
     stream, buffered records), and sends what the stage recorded back through a pipe.  Returns a function that waits for all
@@ -3252,8 +3274,20 @@ def start_workers(ck: Ck, groups: list[list[tuple[str, Callable[..., Any], tuple
                     box = StageCk(ck, name)
                     box._ties_before = box._ties_before or escalate
                     wr.send(('start', name))
+                    if searches:
+                        def on_alarm(*_: Any) -> None:
+                            signal.alarm(HEARTBEAT)
+                            raise StageHang(f'no case finished for {HEARTBEAT} s')
+                        signal.signal(signal.SIGALRM, on_alarm)
+                        box.heartbeat = HEARTBEAT
+                        signal.alarm(HEARTBEAT)
                     try:
                         timed(name, fn, box, *args)
+                    except StageHang:
+                        box.violation(f'search-stage-does-not-terminate:{name}',
+                                      f'{name}: a call into the implementation did not return within {HEARTBEAT} s (a case normally takes '
+                                      f'milliseconds to seconds) | {traceback.format_exc()[-900:]}',
+                                      {'kind': 'stage', 'stage': name, 'seed': ck.seed, 'tier': 'thorough' if box.budget(0, 1) else 'quick'})
                     except Exception as e:   # noqa: BLE001
                         in_impl = any('/srctools/' in fr.filename for fr in traceback.extract_tb(e.__traceback__))
                         if not searches and not in_impl:
@@ -3269,6 +3303,8 @@ def start_workers(ck: Ck, groups: list[list[tuple[str, Callable[..., Any], tuple
                                           f'{name} stopped with an exception none of its oracles expects from the implementation: '
                                           f'{type(e).__name__}: {str(e)[:200]} | {traceback.format_exc()[-700:]}',
                                           {'kind': 'stage', 'stage': name, 'seed': ck.seed, 'tier': 'thorough' if box.budget(0, 1) else 'quick'})
+                    signal.alarm(0)
+                    box.heartbeat = 0
                     try:
                         payload = pickle.dumps(box.payload())
                     except Exception as e:   # noqa: BLE001
@@ -3367,7 +3403,7 @@ def start_workers(ck: Ck, groups: list[list[tuple[str, Callable[..., Any], tuple
 # wall-clock limits per stage (seconds).  Quick search stages take 0.1-16 s at load 25 and up to about 50 s at load 80; with the
 # thorough budgets 5-200 s.  Tie stages: up to 30 s quick, 3-5 min thorough (coqc), and their coq_eval calls carry their own limits.
 STAGE_LIMIT_SEARCH_QUICK = 300
-STAGE_LIMIT_SEARCH_THOROUGH = 1500
+STAGE_LIMIT_SEARCH_THOROUGH = 900
 STAGE_LIMIT_TIE = 2400
 
 
@@ -3469,6 +3505,8 @@ def run(ck: Ck) -> None:
         ck.notes.append('a tie was broken by the build or by a stage that ran beside the searches: searches repeated with the thorough budgets')
         start_workers(ck, search_groups(data, tb), searches=True, escalate=True)()
     keys = {v['key'] for v in ck.violations}
+    if any(k.startswith('search-stage-') for k in keys):
+        ck.explain('translate:')      # the stage replay is the concrete input for whatever the translator could not read either
     if keys:
         ck.explain('instance:property_hypotheses_hold')   # the conjunction of the named booleans: the parts say which mechanism
         ck.explain('stage:')      # a tie stage the implementation made raise / hang is explained by any concrete finding of this run
@@ -3510,7 +3548,7 @@ def run(ck: Ck) -> None:
     site_of = (('engine_dbase', 'lazy-multi-db'), ('engine_def', 'lazy-multi-db'), ('add_engine_database', 'lazy-multi-db'), ('EngineDB', 'lazy-'), ('_parse_block', 'lazy-'), ('get_fgd', 'lazy-'), ('serialise', 'binary-'), ('build_blocks', 'binary-'), ('BinStrDict', 'binary-'),
                ('_write_longstring', 'longstring:'), ('_fgd_escape', 'longstring:'), ('ESCAPE', 'longstring:'),
                ('KVDef.export', 'generated-fgd'), ('IODef.export', 'generated-fgd'), ('EntityDef.export', 'generated-fgd'),
-               ('KVDef._parse', 'type-text-'), ('IODef._parse', 'type-text-'), ('VALUE_TYPE_LOOKUP', 'type-text-'), ('ValueTypes', 'type-text-'),
+               ('KVDef._parse', 'type-text-'), ('IODef._parse', 'type-text-'), ('VALUE_TYPE_LOOKUP', 'type-text-'), ('ValueTypes', 'type-text-'), ('VALUE_TO_IO_DECAY', 'generated-fgd'), ('VALUE_TO_IO_DECAY', 'type-text-'),
                ('KVDef._parse', 'generated-fgd'), ('IODef._parse', 'generated-fgd'), ('FGD.parse_file', 'generated-fgd'),
                ('FGD.parse_file', 'bundled-db'), ('EntityTypes', 'generated-fgd'))
     for tie in ck.tie_broken:
@@ -3557,18 +3595,21 @@ def replay(data: dict) -> int:
                 return t if self.thorough else q
 
             def count(self, *a: Any, **k: Any) -> None:
+                signal.alarm(limit)
+
+            def hist(self, *a: Any, **k: Any) -> None:
                 pass
-            hist = seen = sample = count
+            seen = sample = hist
 
             def violation(self, key: str, what: str, rep: Any, no_input: bool = False) -> None:
                 print('VIOLATION', key, ':', what)
                 self.found.append(key)
         fn, args = search_stage(r['stage'])
         rck = ReplayCk()
-        limit = STAGE_LIMIT_SEARCH_THOROUGH if rck.thorough else STAGE_LIMIT_SEARCH_QUICK
+        limit = HEARTBEAT
 
         def on_alarm(*_: Any) -> None:
-            raise TimeoutError(f'{r["stage"]} did not finish within {limit} s')
+            raise TimeoutError(f'{r["stage"]}: no case finished for {limit} s')
         signal.signal(signal.SIGALRM, on_alarm)
         signal.alarm(limit)
         try:
